@@ -54,15 +54,25 @@ sig_hyb_gss_panic = _sig_hyb("HybGssPanic")
 RULE = ("cases = every behaviour (unit constants, initial SOC, sequence of <engine on/off, dt, demand class relative to the "
         "just-published limits>) reached by TLC in the bounded PowerFlow configs (sampled to max_emit per config in the "
         "quick tier) + seeded generator runs (flat and non-flat dyadic 1-D maps, 3-D battery maps, variable dt, limit "
-        "riding, 8-160 steps; units where each component in turn is the binding one; hybrids with fixed split and with the "
+        "riding, 8-160 steps; units where each component in turn is the binding one; units with limit checking off driven "
+        "above their published limits; real-sized conventional units pulling a train through SetSpeedTrainSim over speed "
+        "traces with non-uniform time steps; hybrids with fixed split and with the "
         "golden-section split) + the materialised inputs of the known findings; each is executed call by call and through "
         "LocomotiveSimulation::walk; distinct = distinct case descriptors (sha256); non-trivial = at least one step "
         "with non-zero demand")
 
 ASSUME_COMMON = [
+    "both modes of Locomotive.assert_limits: with limit checking off (about a fifth of the cases, demands up to twice the "
+    "published limit and up to the drivetrain rating) the code skips the engine's rating / transient-limit checks only "
+    "(fuel_converter.rs:192); C01 and C08 are judged on every accepted step of either mode, the C09 clauses stated for "
+    "steps 'accepted with limit checking on' (ratings, transient limit, ramp, published locomotive limit, SOC window) only "
+    "on units with limit checking on, PublishedSane in both",
     "single locomotive (ConventionalLoco, BatteryElectricLoco, HybridLoco) driven exactly like LocomotiveSimulation::solve_step: "
     "set_pwr_aux, set_cur_pwr_max_out, solve_energy_consumption, step; after an Err the caller continues from a clone "
     "taken before the call (the half-updated components of a rejected step are not part of any invariant)",
+    "train level: the unit alone in a consist inside a SetSpeedTrainSim (flat two-link network, 4-8 cars), stepped over a "
+    "speed trace whose time steps vary (1/4 .. 2 s); after each step the unit's component states (limits published for "
+    "that step, powers solved in it) are recorded like one history entry, the step size taken from the trace's time column",
     "toy-scale dyadic parameters (ratings 16 W .. 4 kW): the powertrain code is scale-free apart from the absolute "
     "1e-3 W branch of almost_le, which the spec models; hybrids are real-sized (64-256 kW) because HybridLoco loads its "
     "generator with a hard-coded 50 kW",
@@ -83,7 +93,8 @@ ASSUME = {
         "eta is logged rounded up at 2^-16: an excess above 1 of any size is visible, a value in (0, 2^-16] shows as 1",
         "EngineOff is reported as HybEngineOff for hybrid units (F-C08-2)"],
     "C09": ASSUME_COMMON + [
-        "assert_limits = true; pwr_out_max_init <= pwr_out_max (floor <= rating)",
+        "the clauses on accepted steps, Ramp and SocWindow: assert_limits = true (the property's own condition); "
+        "pwr_out_max_init <= pwr_out_max (floor <= rating)",
         "SocWindow: initial SOC inside [min_soc, max_soc] and every accepted step so far had "
         "dt <= DtSafe = min(eta_r * E*(lo_ramp-min)/(P_max*1.001), E*(max-hi_ramp)/P_max); beyond DtSafe the linear "
         "derating does not protect the window (shown by TLC and by replay), those steps are recorded but not judged",
@@ -109,7 +120,10 @@ OOG_MIN = 10     # C08: every map / side looked up at least this often outside i
                  # >= 100; 28 for the generator's upper side under that same mutant)
 IO_MIN = 50      # group-wide: requests ISSUED so as to land outside each map / side (design facts of the generated units)
 IN_MIN = dict(in_conv=100, in_bel=100, in_hyb=100, in_gss=10, in_mapped=40, in_req=5000, in_req_limit=1500,
-              in_req_regen=500, in_req_brake=300, in_req_zero=300, in_eng_off=1000)
+              in_req_regen=500, in_req_brake=300, in_req_zero=300, in_eng_off=1000,
+              # limit checking off (assert_limits = false): cases, cases with an engine, requests, requests above the published limit
+              in_train=10,     # train-level cases (SetSpeedTrainSim over a speed trace with non-uniform time steps)
+              in_nolim=300, in_nolim_fc=200, in_req_nolim=1000, in_req_nolim_over=400)
 
 
 def _vacuity(r):
@@ -153,7 +167,15 @@ def _cov_extra(res):
                 out_of_grid_hits={k: s.get("oog_" + k, 0) for k in OOG},
                 out_of_grid_issued={k: s.get("io_" + k, 0) for k in OOG},
                 issued={k: s.get(k, 0) for k in IN_MIN},
-                over_limit_requests_rejected=s.get("rej_over", 0), **_ROLL)
+                over_limit_requests_rejected=s.get("rej_over", 0),
+                train_level=dict(cases=s.get("in_train", 0), steps=s.get("train_steps", 0),
+                                 steps_shorter_than_the_one_before=s.get("train_short_after_long", 0),
+                                 runs_stopped_early=s.get("train_fail", 0)),
+                limit_checking_off=dict(cases=s.get("in_nolim", 0), requests=s.get("in_req_nolim", 0),
+                                        requests_above_published_limit=s.get("in_req_nolim_over", 0),
+                                        accepted_steps=s.get("nolim_acc", 0),
+                                        accepted_with_engine_above_transient_limit=s.get("nolim_over_tr", 0),
+                                        accepted_with_engine_above_rating=s.get("nolim_over_rating", 0)), **_ROLL)
 
 
 # ---- bin/selftest: one recorded field corrupted -> the trace spec must name the invariant at exactly that line ----
@@ -161,7 +183,7 @@ def _kinds(ev):
     return {e["case"]: e["desc"]["cfg"] for e in ev if e.get("ev") == "begin"}
 
 
-def _corrupt(kind, pred, change, expect, what="Solve"):
+def _corrupt(kind, pred, change, expect, what="Solve", limits=True):
     """first call-by-call record `what` of a unit of `kind` (None = any) that is the first accepted step of its case
     (so that no tolerance applies) and satisfies pred(event, cfg, previous Pub event)"""
     def fn(ev):
@@ -175,6 +197,8 @@ def _corrupt(kind, pred, change, expect, what="Solve"):
                 continue
             cfg = cfgs[e["case"]]
             if kind and cfg["kind"] not in kind:
+                continue
+            if bool(cfg.get("assert", True)) != limits:      # limits=False: a unit running without limit checking
                 continue
             if what == "Solve":
                 if not e.get("acc") or first_acc.get(e["case"]) != i or not e["exact"] or not ev[i - 1].get("exact"):
@@ -200,6 +224,12 @@ _any = lambda e, c, pb: True
 _trac = lambda e, c, pb: e["req"] > 0
 FC, RS = ("conv", "hyb"), ("bel", "hyb")
 CORRUPT = {
+    "shaft_vs_generator_input_limits_off": _corrupt(("conv",), lambda e, c, pb: e["p"]["brake"] > pb["pub"]["fc"],
+                                                    _bump("p", "brake", -64), ["L2s", "L1s"], limits=False),
+    "fuel_energy_limits_off": _corrupt(FC, _any, _bump("e", "fuel"), ["L1", "L9"], limits=False),
+    "negative_loss_limits_off": _corrupt(FC, _any, lambda e, c, pb: e["p"].__setitem__("lossf", -64), ["LossNonNeg"], limits=False),
+    "fuel_with_engine_off_limits_off": _corrupt(("conv",), lambda e, c, pb: not pb["eng"], lambda e, c, pb: e["p"].__setitem__("fuel", 64),
+                                                ["EngineOff"], limits=False),
     "fuel_power": _corrupt(FC, _any, _bump("p", "fuel"), ["L1s"]),
     "shaft_vs_generator_input": _corrupt(FC, _any, _bump("p", "mech"), ["L2s"]),
     "generator_loss_energy": _corrupt(FC, _any, _bump("e", "lossg"), ["L3"]),
@@ -243,12 +273,14 @@ GROUP = dict(
         "quick": [dict(cfg="MCPowerFlow_quickC.cfg", emit=True, max_emit=1800),
                   dict(cfg="MCPowerFlow_quickB.cfg", emit=True, max_emit=1500),
                   dict(cfg="MCPowerFlow_quickH.cfg", emit=True, max_emit=1500),
+                  dict(cfg="MCPowerFlow_quickN.cfg", emit=True, max_emit=1200),       # limit checking off
                   dict(cfg="MCPowerFlow_minsoc.cfg", emit=True, may_be_zero=("Reject",))],
         # depth 3 emitted (sampled), depth 4 emitted (sampled), depth 3 over every efficiency combination / binding
         # variant and depth 5 on one unit per kind with the history hidden by VIEW (exhaustive, not emitted)
         "thorough": [dict(cfg="MCPowerFlow_quickC.cfg", emit=True, max_emit=8000),
                      dict(cfg="MCPowerFlow_quickB.cfg", emit=True, max_emit=8000),
                      dict(cfg="MCPowerFlow_quickH.cfg", emit=True, max_emit=8000),
+                     dict(cfg="MCPowerFlow_quickN.cfg", emit=True, max_emit=8000),
                      dict(cfg="MCPowerFlow_minsoc.cfg", emit=True, may_be_zero=("Reject",)),
                      dict(cfg="MCPowerFlow_thorC4.cfg", emit=True, max_emit=6000, workers=12, timeout=1200),
                      dict(cfg="MCPowerFlow_thorB4.cfg", emit=True, max_emit=6000, workers=12, timeout=1200),
@@ -374,19 +406,24 @@ MANIFEST = {
                      "Level-B model and re-evaluates each by name on every state the real Locomotive recorded for every "
                      "emitted behaviour (call by call and through LocomotiveSimulation::walk) plus seeded generator runs. "
                      "Re-finds F-C01-1 (BEL aux curtailed at low SOC) in the model and on the code; hybrid units: ledger holds except "
-                     "the aux roll-up (F-C01-2, hard-coded 50 kW) and a panic of the golden-section split (F-C01-3).",
+                     "the aux roll-up (F-C01-2, hard-coded 50 kW) and a panic of the golden-section split (F-C01-3). Units run in "
+                     "both modes of Locomotive.assert_limits: with limit checking off they are driven far above the published "
+                     "limits (the engine above its transient limit and its rating) and the ledger is judged on those steps too.",
                 note=_NOTE),
     "C08": dict(engine="PowerFlow", design_ref="3 (C08)", technique=_TECH,
                 text="Same runs as C01; TLC evaluates LossNonNeg, EtaRange, the converter order relations, Monotone, "
                      "DynBrakeSign and EngineOff on every recorded accepted step (all engine on/off words of the bounded "
                      "depth, regeneration, map clamps). EngineOff holds after the repair of F-C08-1 and detects its reversal; a hybrid "
-                     "commanded off keeps burning fuel (F-C08-2).",
+                     "commanded off keeps burning fuel (F-C08-2). Judged with limit checking on and off alike.",
                 note=_NOTE),
     "C09": dict(engine="PowerFlow", design_ref="3 (C09)", technique=_TECH,
                 text="Same runs as C01 with demand classes chosen adversarially after set_cur_pwr_max_out (0, 1/2 pub, pub-d, "
                      "pub, pub+d, pub+1.6 %, -regen_pub +- d, -dyn_max, -dyn_max-d); TLC evaluates the rating / transient / "
                      "ramp / SOC-window / published-limit predicates with the code's own eps = 1e-3; an accepted over-limit "
                      "request is a recorded state that fails WithinLimits. Unit families make each component in turn the binding one; "
-                     "evidence.coverage.boundary_hits counts, per conjunct, the recorded states within 1/64 of that conjunct's limit.",
+                     "evidence.coverage.boundary_hits counts, per conjunct, the recorded states within 1/64 of that conjunct's limit. "
+                     "Units with limit checking off are outside this property (only PublishedSane is judged on them). Train level: "
+                     "the unit pulls a train through SetSpeedTrainSim over speed traces with non-uniform time steps and Ramp / "
+                     "the step clauses are judged with the step size of the trace's time column.",
                 note=_NOTE),
 }
